@@ -60,7 +60,7 @@ impl Java {
             // Server address (can be anything)
             as_string(&self.request_settings.hostname)?.as_slice(),
             // Server port (can be anything)
-            &self.socket.port().to_le_bytes(),
+            &self.socket.port().to_be_bytes(),
             &[
                 // Next state (1 for status)
                 0x01,
